@@ -121,6 +121,47 @@ def plan_full(tier, shard, nshards):
     return [(i, gen.messages(i, "small", tail=True), n) for i in ids]
 
 
+def o_reader(case):
+    """every message number without a definition, read by a stream reader right after a CRC-damaged frame (and under
+    application diagnostics): the frame must come back as a stub, never be lost or raise"""
+    import io
+
+    from pyrtcm import RTCMReader
+
+    from pv.core import diagnostics
+
+    good = []
+    stream = bytearray()
+    bad = bytearray(framing.build_frame(b"\xfe\x80\x01\x02"))
+    bad[-1] ^= 0x01
+    for n in case["numbers"]:
+        if model.definition(str(n)) is not None or n == 4076:
+            continue
+        f = framing.build_frame(bytes([n >> 4, (n & 0xF) << 4]) + tail_for(n, 0, 1, 1 + n % 5))
+        good.append((n, f))
+        stream += bytes(bad) + f
+    with diagnostics(bool(case.get("diag"))):
+        try:
+            got = list(RTCMReader(io.BytesIO(bytes(stream)), quitonerror=case["qoe"]))
+        except Exception as e:  # pylint: disable=broad-except
+            raise Fail("reader-raised-on-unknown-number", f"quitonerror={case['qoe']} diagnostics={bool(case.get('diag'))}: {type(e).__name__}: {e}") from e
+    if len(got) != len(good):
+        lost = [n for (n, f) in good if f not in [r for r, _ in got]]
+        raise Fail("unknown-number-lost-by-reader", f"{len(got)} of {len(good)} frames with undefined numbers returned after a damaged frame; first lost: {lost[:5]}")
+    for (n, f), (raw, parsed) in zip(good, got):
+        if raw != f or parsed is None or parsed.identity != str(n) or parsed.payload != f[3:-3]:
+            raise Fail("unknown-number-stub-wrong", f"number {n}: raw / identity / payload of the stub differ")
+    return Res(nontrivial=True, classes=["diagnostics-on" if case.get("diag") else "diagnostics-off"], evals=len(good), count=len(good))
+
+
+def e_reader(tier, shard, nshards):
+    block = 64
+    for k, start in enumerate(range(0, 4096, block)):
+        if k % nshards != shard:
+            continue
+        yield {"numbers": list(range(start, start + block)), "qoe": k % 2, "diag": bool((k // 2) % 2)}
+
+
 SUBS = [
     Sub(
         "header_space",
@@ -130,6 +171,7 @@ SUBS = [
         rule="all 4096 numbers x all 256 sub-type byte values (complete); tails deterministic per header",
         need={"msm-roster": 49, "4076": 1, "stub": 1, "defined-ok": 1, "defined-rejected": 1},
     ),
+    Sub("undefined_numbers_through_reader", o_reader, enum=e_reader, exhaustive=True, rule="every undefined message number, each right after a CRC-damaged frame, through RTCMReader (complete)", need={"diagnostics-on": 1, "diagnostics-off": 1}, sample=lambda c: {"numbers": f"{c['numbers'][0]}..{c['numbers'][-1]}", "qoe": c["qoe"], "diag": c["diag"]}),
     Sub("implemented_full_payloads", o_full, plan=plan_full, rule="every implemented identity with a model-built body", need={"msm": 1}),
     Sub(
         "cold_start_concurrent_first_use",
